@@ -36,6 +36,10 @@ func scenarioC01(r *Run) {
 		return
 	}
 	spec := genSpec(t, SpecOpts{MaxExtra: 40, MaxSigner: 6, BigOK: bigOK(r, "c01.big")})
+	if t.Bool(1, 8, "c01.recycled") {
+		r.RecycledSigCap = []int{1, 32, 64, 96, 132}[t.Choose(5, "c01.recycled.cap")]
+		r.Probe("recycled-message-objects")
+	}
 	viaDir := t.Bool(1, 3, "c01.viadir")
 	ent := NewEntropy(uint64(t.U32("entropy.seed")))
 	if t.Bool(1, 5, "entropy.short") {
@@ -184,7 +188,7 @@ func scenarioC01(r *Run) {
 	}
 	// attach innermost first so that outer values carry their children
 	for i := len(chain) - 1; i >= 0; i-- {
-		chain[i].cs.attach(chain[i].parent.Headers, t.Bool(1, 3, "c01.csig.aslist"))
+		chain[i].cs.attach(chain[i].parent.Headers, t.Bool(1, 3, "c01.csig.aslist"), decodedParent && i == 0)
 	}
 	if len(chain) >= 2 {
 		r.Probe("nested-countersig-depth>=2")
